@@ -225,9 +225,9 @@ def run_driver(lines, timeout=3600):
     return res
 
 
-def run_driver_sharded(lines, shards=8, timeout=3600):
+def run_driver_sharded(lines, shards=8, timeout=3600, min_lines=4000):
     """stateless lines only"""
-    if len(lines) < 4000 or shards <= 1:
+    if len(lines) < min_lines or shards <= 1:
         return run_driver(lines, timeout)
     import concurrent.futures as cf
     n = (len(lines) + shards - 1) // shards
@@ -245,15 +245,23 @@ class Hang(Exception):
 
 
 def with_timeout(fn, seconds=5):
+    """Watchdog for an implementation call.  The budget is PROCESS CPU TIME (ITIMER_PROF), so a
+    loaded machine cannot turn a slow-but-terminating call into a false "hang"; a spinning loop
+    burns CPU and is stopped after `seconds` of it.  A generous wall-clock alarm remains as a
+    backstop for calls that block without using CPU."""
     def _h(sig, frm):
         raise Hang()
-    old = signal.signal(signal.SIGALRM, _h)
-    signal.alarm(seconds)
+    old_prof = signal.signal(signal.SIGPROF, _h)
+    old_alrm = signal.signal(signal.SIGALRM, _h)
+    signal.setitimer(signal.ITIMER_PROF, float(seconds))
+    signal.alarm(int(max(120, seconds * 40)))
     try:
         return fn()
     finally:
+        signal.setitimer(signal.ITIMER_PROF, 0)
         signal.alarm(0)
-        signal.signal(signal.SIGALRM, old)
+        signal.signal(signal.SIGPROF, old_prof)
+        signal.signal(signal.SIGALRM, old_alrm)
 
 
 # --------------------------------------------------------------------------------------
@@ -388,7 +396,8 @@ def run_check(chk, tier, seed):
             # the driver is only usable when the model library builds
             ok_drv, drv_log = (True, '') if ok_build else lake_build(['OmbottModel.Drv.All'])
             if ok_drv:
-                outs = run_driver(lines) if chk.corr_stateful() else run_driver_sharded(lines)
+                outs = run_driver(lines) if chk.corr_stateful() else run_driver_sharded(
+                    lines, min_lines=getattr(chk, 'drv_shard_min', 4000))
                 for (line, impl, sample), mod in zip(corr_cases, outs):
                     if impl != mod:
                         disagreements.append(dict(line=line, impl=impl, model=mod, sample=sample))
